@@ -3,6 +3,8 @@ import Ufo2ftModel.Props.Render
 namespace Ufo2ft
 open List
 
+variable {bnd : Comp → Option (Q × Q)}
+
 /-- `a` extends `b`: same glyphs, each with the same outline, components and metrics, and with `b`'s anchors as a prefix
     of `a`'s (existing anchors are never overridden, removed or reordered; new ones come after them) -/
 def AnchExt (a b : GlyphSet) : Prop :=
@@ -30,12 +32,12 @@ theorem AnchExt.set (gs : GlyphSet) (name : String) (g : Glyph) (extra : List An
   · rw [if_neg e]; exact ⟨gb, hb, prefix_refl _, rfl, rfl, rfl, rfl, rfl⟩
 
 def PropOne (fuel : Nat) : Prop :=
-  ∀ marks st name st', propagate fuel marks st name = .ok st' → AnchExt st'.gs st.gs
+  ∀ bnd marks st name st', propagate fuel bnd marks st name = .ok st' → AnchExt st'.gs st.gs
 def PropMany (fuel : Nat) : Prop :=
-  ∀ marks st ks sp st' sp', propagateComps fuel marks st ks sp = .ok (st', sp') → AnchExt st'.gs st.gs
+  ∀ bnd marks st ks sp st' sp', propagateComps fuel bnd marks st ks sp = .ok (st', sp') → AnchExt st'.gs st.gs
 
 theorem propMany_of_propOne (fuel : Nat) (h1 : PropOne fuel) : PropMany fuel := by
-  intro marks st ks
+  intro bnd marks st ks
   induction ks generalizing st with
   | nil =>
     intro sp st' sp' h
@@ -50,12 +52,12 @@ theorem propMany_of_propOne (fuel : Nat) (h1 : PropOne fuel) : PropMany fuel := 
     | some b0 =>
       rw [hb] at h
       dsimp only at h
-      cases hp : propagate fuel marks st k.base with
+      cases hp : propagate fuel bnd marks st k.base with
       | error e => rw [hp] at h; cases h
       | ok st1 =>
         rw [hp] at h
         dsimp only at h
-        have e1 := h1 marks st k.base st1 hp
+        have e1 := h1 bnd marks st k.base st1 hp
         cases hb1 : st1.gs.get? k.base with
         | none => rw [hb1] at h; cases h
         | some b =>
@@ -66,7 +68,7 @@ theorem propMany_of_propOne (fuel : Nat) (h1 : PropOne fuel) : PropMany fuel := 
           · rw [if_neg hm] at h; exact (ih st1 _ st' sp' h).trans e1
 
 theorem propOne_succ (fuel : Nat) (h2 : PropMany fuel) : PropOne (fuel + 1) := by
-  intro marks st name st' h
+  intro bnd marks st name st' h
   unfold propagate at h
   by_cases hpr : st.processed.contains name = true
   · rw [if_pos hpr] at h
@@ -82,16 +84,18 @@ theorem propOne_succ (fuel : Nat) (h2 : PropMany fuel) : PropOne (fuel + 1) := b
       · rw [if_pos hskip] at h
         have := Except.ok.inj h; subst this; exact AnchExt.refl _
       · rw [if_neg hskip] at h
-        cases hc : propagateComps fuel marks { st with processed := st.processed ++ [name] } g.comps ⟨[], [], []⟩ with
+        cases hc : propagateComps fuel bnd marks { st with processed := st.processed ++ [name] } g.comps ⟨[], [], []⟩ with
         | error e => rw [hc] at h; cases h
         | ok res =>
-          obtain ⟨st1, sp⟩ := res
+          obtain ⟨st1, sp0⟩ := res
           rw [hc] at h
           dsimp only at h
-          have e1 : AnchExt st1.gs st.gs := h2 marks { st with processed := st.processed ++ [name] } g.comps _ st1 sp hc
-          by_cases hl : (!sp.markComps.isEmpty && sp.baseComps.isEmpty && isLigatureMark name) = true
-          · rw [if_pos hl] at h; cases h
-          · rw [if_neg hl] at h
+          have e1 : AnchExt st1.gs st.gs := h2 bnd marks { st with processed := st.processed ++ [name] } g.comps _ st1 sp0 hc
+          cases hpm : promoteSplit bnd name sp0 with
+          | error e => rw [hpm] at h; cases h
+          | ok sp =>
+            rw [hpm] at h
+            dsimp only at h
             have h' := Except.ok.inj h
             split at h'
             · subst h'; exact e1
@@ -121,7 +125,7 @@ theorem propagate_ext : ∀ fuel, PropOne fuel ∧ PropMany fuel := by
   intro fuel
   induction fuel with
   | zero =>
-    have h0 : PropOne 0 := by intro marks st name st' h; simp only [propagate] at h; cases h
+    have h0 : PropOne 0 := by intro bnd marks st name st' h; simp only [propagate] at h; cases h
     exact ⟨h0, propMany_of_propOne 0 h0⟩
   | succ n ih =>
     have h1 := propOne_succ n ih.2
@@ -131,7 +135,7 @@ theorem propagate_ext : ∀ fuel, PropOne fuel ∧ PropMany fuel := by
     predicate leaves every glyph's outline, components and metrics untouched, and every glyph's original anchors unchanged
     and still first — propagated anchors are only appended after them. -/
 theorem propagateLoop_ext (marks : List String) (incl : String → Bool) :
-    ∀ (order : List String) (st st' : FState), filterLoop (propagateStep marks) incl order st = .ok st' →
+    ∀ (order : List String) (st st' : FState), filterLoop (propagateStep bnd marks) incl order st = .ok st' →
       AnchExt st'.gs st.gs := by
   intro order
   induction order with
@@ -152,7 +156,7 @@ theorem propagateLoop_ext (marks : List String) (incl : String → Bool) :
         dsimp only at h
         by_cases hi : incl n = true
         · rw [if_pos hi] at h
-          cases hs : propagateStep marks st g with
+          cases hs : propagateStep bnd marks st g with
           | error e => rw [hs] at h; cases h
           | ok res =>
             obtain ⟨st1, r⟩ := res
@@ -165,13 +169,13 @@ theorem propagateLoop_ext (marks : List String) (incl : String → Bool) :
                 have := Except.ok.inj hs
                 rw [← (Prod.mk.inj this).1]; exact AnchExt.refl _
               · rw [if_neg he] at hs
-                cases hp : propagate (st.gs.length + 1) marks st g.name with
+                cases hp : propagate (st.gs.length + 1) bnd marks st g.name with
                 | error e => rw [hp] at hs; cases hs
                 | ok st2 =>
                   rw [hp] at hs
                   have := Except.ok.inj hs
                   rw [← (Prod.mk.inj this).1]
-                  exact (propagate_ext (st.gs.length + 1)).1 marks st g.name st2 hp
+                  exact (propagate_ext (st.gs.length + 1)).1 bnd marks st g.name st2 hp
             by_cases hr : r = true
             · rw [if_pos hr] at h; exact (ih _ st' h).trans key
             · rw [if_neg hr] at h; exact (ih _ st' h).trans key
